@@ -41,8 +41,8 @@ def run(ctx):
         if 'pure' in out:
             snapshots += 1
         n = len(out.get('again', []))
-        repeats += min(n, 2)
-        if n == 3:
+        repeats += min(n, 3)          # same scheduler object, fresh scheduler, fresh scheduler after a calc that raised
+        if n == 4:
             clock_pairs += 1
     ctx.coverage.setdefault('distribution', {}).update(
         {'input_snapshots_compared': snapshots, 'repeated_calls_compared': repeats, 'other_clock_runs_compared': clock_pairs})
